@@ -36,6 +36,7 @@ Judge(e) ==
     [] n = "CvJoin"           -> JoinClauses(AsC(e.c), AsC(e.b), e.cls, AsC(e.d), e.dv)
     [] n = "CvArith"          -> ArithClauses(e.act.op, AsC(e.c), AsC(e.b), e.cls, AsC(e.d), e.dv)
     [] n = "CvMatmul"         -> MatmulClauses(AsC(e.c), AsC(e.act.a2), AsC(e.b), AsC(e.act.b2), e.cls, AsC(e.d), e.dv)
+    [] n = "CvLinear"         -> LinearClauses(e.act.a, e.act.b, AsC(e.c), AsC(e.b), e.cls, AsC(e.d), e.dv)
     [] n = "CvScalar"         -> ScalarClauses(e.act.op, e.act.s, AsC(e.c), e.cls, AsC(e.d), e.dv)
     [] n = "CvClean"          -> Fails({<<"same_function", ConsistentCurve(AsC(e.d)) /\
                                      ObservedEquals(AsC(e.c), e.dv, CommonBreaks(e.c.U, e.d.U), Deg(e.c.U) + Deg(e.d.U))>>})
